@@ -15,6 +15,7 @@ import (
 	"errors"
 	"fmt"
 	"reflect"
+	"strings"
 	"sync"
 	"time"
 
@@ -25,6 +26,11 @@ type ruSub struct {
 	Weights map[string]int
 }
 
+type ruBackend struct {
+	Hosts []string
+	Quota *int
+}
+
 type ruCfg struct {
 	Name   string
 	Count  int
@@ -32,6 +38,8 @@ type ruCfg struct {
 	Tags   []string
 	Opt    *int
 	Sub    ruSub
+	// a map whose VALUES are structs holding a slice and a pointer: copied entry by entry, all the way down
+	Backends map[string]ruBackend
 }
 
 var errRuInvalid = errors.New("ru: a limit is not positive")
@@ -50,6 +58,16 @@ func (c *ruCfg) Verify() error {
 	if c.Count < 0 || (c.Opt != nil && *c.Opt < 0) {
 		return errRuInvalid
 	}
+	for _, b := range c.Backends {
+		for _, h := range b.Hosts {
+			if h == "" {
+				return errRuInvalid
+			}
+		}
+		if b.Quota != nil && *b.Quota <= 0 {
+			return errRuInvalid
+		}
+	}
 	return nil
 }
 
@@ -58,7 +76,17 @@ func (c ruCfg) show() string {
 	if c.Opt != nil {
 		opt = fmt.Sprint(*c.Opt)
 	}
-	return fmt.Sprintf("{Name:%s Count:%d Limits:%v Tags:%v Opt:%s Sub.Weights:%v}", c.Name, c.Count, c.Limits, c.Tags, opt, c.Sub.Weights)
+	var bk []string
+	for _, k := range []string{"a", "b"} {
+		if b, ok := c.Backends[k]; ok {
+			q := "nil"
+			if b.Quota != nil {
+				q = fmt.Sprint(*b.Quota)
+			}
+			bk = append(bk, fmt.Sprintf("%s={%q q:%s}", k, b.Hosts, q))
+		}
+	}
+	return fmt.Sprintf("{Name:%s Count:%d Limits:%v Tags:%v Opt:%s Sub.Weights:%v Backends:%v}", c.Name, c.Count, c.Limits, c.Tags, opt, c.Sub.Weights, bk)
 }
 
 type ruSrc struct {
@@ -84,6 +112,8 @@ type ruContent struct {
 	opt    int
 	hasOpt bool
 	w      map[string]int
+	hosts  []string // hosts of backend "b" (backend "a" keeps one host); an empty host is invalid
+	quota  int
 }
 
 // write the content INTO the existing object: maps, slices and pointees are changed in place where they exist
@@ -138,6 +168,20 @@ func (s *ruSrc) write(c ruContent) {
 	for k, v := range c.w {
 		w.SetMapIndex(reflect.ValueOf(k), reflect.ValueOf(v))
 	}
+	// Backends: the entry structs are re-stored, but their Hosts slices and Quota pointees are changed IN PLACE
+	bk := e.FieldByName("Backends")
+	if bk.IsNil() {
+		bk.Set(reflect.ValueOf(map[string]ruBackend{"a": {Hosts: []string{"a0"}}, "b": {Hosts: make([]string, len(c.hosts)), Quota: new(int)}}))
+	}
+	m := bk.Interface().(map[string]ruBackend)
+	b := m["b"]
+	if len(b.Hosts) == len(c.hosts) {
+		copy(b.Hosts, c.hosts) // same backing array
+	} else {
+		b.Hosts = append([]string{}, c.hosts...)
+	}
+	*b.Quota = c.quota
+	m["b"] = b
 }
 
 func (c ruContent) over(base ruCfg) ruCfg {
@@ -155,6 +199,8 @@ func (c ruContent) over(base ruCfg) ruCfg {
 	for k, v := range c.w {
 		base.Sub.Weights[k] = v
 	}
+	q := c.quota
+	base.Backends = map[string]ruBackend{"a": {Hosts: []string{"a0"}}, "b": {Hosts: append([]string{}, c.hosts...), Quota: &q}}
 	return base
 }
 
@@ -195,11 +241,16 @@ func rtReuse(c *Ctx, n int) {
 		for k := 1; k <= steps && !failed; k++ {
 			bad := r.Chance(35)
 			ct := ruContent{name: fmt.Sprintf("n%d", k), count: k, limits: map[string]int{"a": k, "b": 10 * k}, tags: []string{fmt.Sprintf("t%d", k), "x"}, opt: k, hasOpt: r.Chance(70), w: map[string]int{"w": k}}
+			ct.hosts, ct.quota = []string{fmt.Sprintf("h%d", k), "h"}, k
 			if r.Chance(30) {
 				delete(ct.limits, "b")
 			}
 			if bad {
-				switch r.Intn(3) {
+				switch r.Intn(5) {
+				case 3:
+					ct.hosts[0] = "" // an empty host inside a map-of-structs entry
+				case 4:
+					ct.quota = -k
 				case 0:
 					ct.limits["a"] = -k
 				case 1:
@@ -290,6 +341,9 @@ func rtReuse(c *Ctx, n int) {
 // the rendering of a config shows a non-positive limit / weight / count (":-", ":0]" patterns are enough here: all
 // legitimate values are positive)
 func ruShowsNonPositive(s string) bool {
+	if strings.Contains(s, `[""`) {
+		return true // an empty host
+	}
 	for i := 0; i+1 < len(s); i++ {
 		if s[i] == ':' && (s[i+1] == '-' || (s[i+1] == '0' && i+2 < len(s) && (s[i+2] == ']' || s[i+2] == ' '))) {
 			return true
